@@ -242,12 +242,16 @@ func workerMain() {
 // Parent side.
 
 type tailBuf struct {
-	mu  sync.Mutex
-	buf []byte
+	mu   sync.Mutex
+	head []byte
+	buf  []byte
 }
 
 func (t *tailBuf) Write(p []byte) (int, error) {
 	t.mu.Lock()
+	if len(t.head) < 6144 {
+		t.head = append(t.head, p[:min(len(p), 6144-len(t.head))]...)
+	}
 	t.buf = append(t.buf, p...)
 	if len(t.buf) > 8192 {
 		t.buf = t.buf[len(t.buf)-4096:]
@@ -259,7 +263,7 @@ func (t *tailBuf) Write(p []byte) (int, error) {
 func (t *tailBuf) String() string {
 	t.mu.Lock()
 	defer t.mu.Unlock()
-	return string(t.buf)
+	return string(t.head) + "\n...\n" + string(t.buf)
 }
 
 type workerProc struct {
@@ -372,7 +376,7 @@ func deathReason(stderr string, timedOut bool) string {
 	case timedOut:
 		return "no answer within the hard time limit"
 	case strings.Contains(stderr, "out of memory") || strings.Contains(stderr, "cannot allocate memory"):
-		return "out of memory (address-space limit)"
+		return "out of memory in " + oomParty(stderr) + " (allocation from a corrupted length field)"
 	case strings.Contains(stderr, "fatal error:"):
 		i := strings.Index(stderr, "fatal error:")
 		line := stderr[i:]
@@ -382,6 +386,29 @@ func deathReason(stderr string, timedOut bool) string {
 		return short(line, 80)
 	}
 	return "unknown"
+}
+
+// oomParty names the party whose goroutine made the fatal allocation.
+func oomParty(stderr string) string {
+	i := strings.Index(stderr, "fatal error:")
+	if i < 0 {
+		return "unknown party"
+	}
+	tr := stderr[i:]
+	if j := strings.Index(tr, "\n\ngoroutine "); j >= 0 {
+		tr = tr[j+2:]
+		if k := strings.Index(tr, "\n\n"); k >= 0 {
+			tr = tr[:k]
+		}
+	}
+	switch {
+	case strings.Contains(tr, "circuit.Evaluator(") || strings.Contains(tr, "circuit.StreamEvaluator("):
+		return "the evaluator"
+	case strings.Contains(tr, "circuit.Garbler(") || strings.Contains(tr, ").Stream(") ||
+		strings.Contains(tr, "ReceiveInputSizes"):
+		return "the garbler"
+	}
+	return "unknown party"
 }
 
 // do sends one request to a worker and waits for the answer.
@@ -436,6 +463,9 @@ func (p *pool) do(req Request) (Reply, error) {
 			w.kill()
 			p.deaths.Add(1)
 			p.slots <- nil
+			if os.Getenv("VERIF_C16_DEBUG") != "" {
+				fmt.Fprintf(os.Stderr, "DBG worker died (%v) on %s\nDBG stderr tail: %s\n", a.err, data, w.stderr.String())
+			}
 			return Reply{}, errWorkerDied{deathReason(w.stderr.String(), false)}
 		}
 		if a.rep.Recycle {
